@@ -340,47 +340,11 @@ def check_phased_sort(prog, ctx):
     ctx.minimum(rid, 12, "paths of the sort + cross-over + result")
 
 
-def check_resolve_everywhere(prog, ctx):
-    """R04.4: every fermionic contraction passes its result through resolve_combined_oddpos before any return."""
-    rid = "R04.4"
-    for fq, contraction in (("symmray.fermionic_core:tensordot_fermionic", "tensordot_abelian"),
-                            ("symmray.fermionic_core:FermionicArray.__matmul__", "AbelianArray.__matmul__")):
-        f = prog.func(fq)
-        body = f.node.body
-        idx_con = idx_res = None
-        cvar = None
-        for i, s_ in enumerate(body):
-            for c in ast.walk(s_):
-                if isinstance(c, ast.Call) and src(c.func) == contraction:
-                    idx_con = i
-                    if isinstance(s_, ast.Assign) and isinstance(s_.targets[0], ast.Name):
-                        cvar = s_.targets[0].id
-                    con = c
-                if isinstance(c, ast.Call) and src(c.func) == "resolve_combined_oddpos" and idx_res is None:
-                    idx_res = i
-                    res = c
-        ctx.need(idx_con is not None, f"{f.qualname}: block contraction call {contraction} not found")
-        ok = idx_res is not None and isinstance(body[idx_con], ast.Assign) and cvar is not None
-        why = "the contraction result is bound to a local and resolve_combined_oddpos is called at the top level of the function"
-        if ok:
-            ok = idx_res > idx_con and isinstance(body[idx_res], ast.Expr) and src(res.args[2]) == cvar if len(res.args) == 3 else False
-            why = "resolve_combined_oddpos(left, right, result) is applied to the contraction result"
-        if ok:
-            rets = [i for i, s_ in enumerate(body) if any(isinstance(x, ast.Return) for x in ast.walk(s_))]
-            ok = all(i < idx_con or i > idx_res for i in rets)
-            why = "no return lies between the contraction and the label / global-sign resolution"
-        if ok:
-            pa = [k for k in con.keywords if k.arg == "preserve_array"]
-            ok = len(pa) == 1 and src(pa[0].value) == "True"
-            why = "the block contraction is asked for an array (preserve_array=True) so that scalar results are resolved too"
-        ctx.check(ok, rid, f, body[idx_con], src(body[idx_con])[:100], f"{f.qualname}: {why}")
-    ctx.minimum(rid, 2, "tensordot_fermionic, FermionicArray.__matmul__")
-
-
 def run(prog, ctx):
     ctx.rule("R04.1", "FermionicOperator.__lt__/__eq__: strict total order, exhaustively over order types of three labels x directions")
     ctx.rule("R04.2", "labels are used only via comparisons, .dag and .dual")
-    ctx.rule("R04.4", "every fermionic contraction result (scalar results included) passes through resolve_combined_oddpos before it is returned")
+    ctx.rule("R04.4", "abstract evaluation: every fermionic contraction (array and scalar results, tensordot and @) hands the object it "
+             "returns to resolve_combined_oddpos exactly once, after the block contraction")
     ctx.rule("R04.3", "phased sort: exchange => exactly one sign; pair removal => sign iff ket-then-bra; duplicates raise; cross-over sign; "
              "phase reaches the array only via phase_global")
     ctx.rule("R04.5", "abstract evaluation: tensordot(b, a) followed by the fermionic transpose equals tensordot(a, b) (blocks, signs, labels)")
@@ -404,4 +368,3 @@ def run(prog, ctx):
         ctx.notes.append(f"R04.3 not applicable to the current form of the label sort ({e}); R04.8 and R04.5-R04.7 decide the behaviour")
         f_ = prog.func("symmray.fermionic_core:resolve_combined_oddpos")
         ctx.ok("R04.3", f"{f_.file}:{f_.qualname}", "path rule not applicable to this form of the sort; decided by R04.8")
-    check_resolve_everywhere(prog, ctx)
